@@ -14,22 +14,24 @@ CHECK = {
     "packages": ["./stream", "./actor"],
     "harness": ["stream/zz_verif_c45.go", "stream/zz_verif_vstream.go", "actor/zz_verif_vnet.go"],
     "entries": [
-        {"fn": P + "vC45_flowStep", "replay": "model-only", "cases": {"kind": KINDS}},
+        # kinds: 0 Map 1 Filter 2 FlatMap 3 TryMap 4 Scan 5 Deduplicate 6 Buffer 7 Flatten
+        {"fn": P + "vC45_flowStep", "replay": "model-only", "cases_quick": {"kind": [0, 1, 2, 3]}, "cases_thorough": {"kind": KINDS}},
         {"fn": P + "vC45_sourceStep", "replay": "model-only", "cases": {"src": [0, 1]}},
         {"fn": P + "vC45_sinkStep", "replay": "model-only"},
         {"fn": P + "vC45_fusedStep", "replay": "model-only"},
         # deferred completion exists only once finding C45-1 is repaired (on the unrepaired tree that branch is unreachable)
         {"fn": P + "vC45_batchStep", "replay": "model-only", "cover_optional": ("completion-deferred",),
          "may_be_unreachable": ("the completion is held back only while elements wait for demand",)},
-        {"fn": P + "vC45_batchHistory", "replay": "model-only", "cases_quick": {"steps": [4]}, "cases_thorough": {"steps": [5]}, "cover_optional": ("completion-deferred", "two-elements-in-one-step"),
+        {"fn": P + "vC45_batchHistory", "replay": "model-only", "cases_quick": {"script": [0, 1]}, "cases_thorough": {"script": [0, 1, 2, 3, 4, 5]}, "cover_optional": ("completion-deferred", "two-elements-in-one-step", "complete-after-two"),
          "may_be_unreachable": ("history: after upstream completed only missing demand delays the completion",)},
         {"fn": P + "vC45_parallelStep", "replay": "model-only", "cases": {"ordered": [0, 1]}, "cover_optional": ("resequenced-run", "held-back")},
     ],
     "opts": {"unwind": 8, "substitute": SUB},
+    "timeout_ms": {"quick": 480000, "thorough": 1800000},
     "stop": [k for k in SUB.keys() if "ReceiveContext" in k] + ["(*" + A + "PID).Shutdown"],
-    "explanation": 'Per-stage one-step contracts (the fallback kernel named in DESIGN C45; the composed source->stages->sink BMC was not affordable: a 7-event history of ONE stage already ran >30 min here) plus one stage-local history. Real code executed symbolically: flowActor.Receive/tryFlushOutput/maybeRequestUpstream with the real transform closures built by Map, Filter, FlatMap, TryMap, Scan, Deduplicate, Buffer, Flatten (one job per kind); pullSourceActor.Receive/produce with the real pullFn of Of and Range; sinkActor.Receive/callOnComplete/PostStop with the real Collect closures; applyFusion + fusedFlowActor.Receive (TryMap fused with Filter); batchFlowActor[int].Receive/flush/maybeRequestUpstream (size trigger; one-step and a history of 4/5 protocol-respecting messages from wiring); parallelMapActor[int,int].Receive/flushOrdered, container/heap and the real worker closure (ordered and unordered, 2 workers); queue.push/pop/len/empty. Each entry puts the stage into an ARBITRARY state satisfying a stated invariant (credit/demand ledgers, buffer contents, flags), delivers ONE arbitrary protocol message (request n / element / complete / error / cancel, elements only against outstanding credit) and asserts: emitted elements = first min(demand, pending) outputs of the reference list function, in order, consecutively numbered; ledgers; completion exactly when upstream completed and the buffer drained; a failing element => cancel upstream + that error downstream + stop; no stall (a live empty stage always has credit outstanding); invariant re-established. List semantics of a pipeline follows by composition under per-sender FIFO delivery (not itself encoded). Substitutions: ReceiveContext.Tell/Shutdown/Unhandled and actor.Tell -> recorders (harness/actor/zz_verif_vnet.go), stream.newStageID -> constant, ActorSystem.SpawnFromFunc/ScheduleOnce -> recorders (harness system), PID.Shutdown not traversed.',
+    "explanation": 'Per-stage one-step contracts (the fallback kernel named in DESIGN C45; the composed source->stages->sink BMC was not affordable: a 7-event history of ONE stage already ran >30 min here) plus one stage-local history. Real code executed symbolically: flowActor.Receive/tryFlushOutput/maybeRequestUpstream with the real transform closures built by Map, Filter, FlatMap, TryMap, Scan, Deduplicate, Buffer, Flatten (one job per kind); pullSourceActor.Receive/produce with the real pullFn of Of and Range; sinkActor.Receive/callOnComplete/PostStop with the real Collect closures; applyFusion + fusedFlowActor.Receive (TryMap fused with Filter); batchFlowActor[int].Receive/flush/maybeRequestUpstream (size trigger; one-step and scripted histories of 4-5 protocol-respecting messages from wiring); parallelMapActor[int,int].Receive/flushOrdered, container/heap and the real worker closure (ordered and unordered, 2 workers); queue.push/pop/len/empty. Each entry puts the stage into an ARBITRARY state satisfying a stated invariant (credit/demand ledgers, buffer contents, flags), delivers ONE arbitrary protocol message (request n / element / complete / error / cancel, elements only against outstanding credit) and asserts: emitted elements = first min(demand, pending) outputs of the reference list function, in order, consecutively numbered; ledgers; completion exactly when upstream completed and the buffer drained; a failing element => cancel upstream + that error downstream + stop; no stall (a live empty stage always has credit outstanding); invariant re-established. List semantics of a pipeline follows by composition under per-sender FIFO delivery (not itself encoded). Substitutions: ReceiveContext.Tell/Shutdown/Unhandled and actor.Tell -> recorders (harness/actor/zz_verif_vnet.go), stream.newStageID -> constant, ActorSystem.SpawnFromFunc/ScheduleOnce -> recorders (harness system), PID.Shutdown not traversed.',
     "bounds": {"InitialDemand": "1..4 (1..3 in the batch history), RefillThreshold in [0, InitialDemand)", "buffered outputs": "<= 3", "downstream demand": "<= 4", "request n": "1..4",
-               "element values / user constants c,f,acc0": "any int", "FlatMap fan-out / Flatten slice": "<= 2", "Batch maxSize": "1..3 (1..2 in the history)", "batch history": "quick 4 messages, thorough 5",
+               "element values / user constants c,f,acc0": "any int", "FlatMap fan-out / Flatten slice": "<= 2", "Batch maxSize": "1..3 (1..2 in the history)", "batch history": "message-kind scripts REEC, REER (quick) + REERE, REECR, RERE, RRECR (thorough); sizes and values symbolic",
                "parallel": "2 workers, <= 2 results waiting in the heap, <= 2 in flight", "source": "<= 3 values, any already-consumed prefix; Range start any in (-2^62, 2^62)"},
     "assumptions": ["per-stage contracts; composition into pipelines (per-sender FIFO, dead letters after Shutdown) is argued, not encoded",
                     "timers (Batch maxWait, Throttle), overflow strategies, remote stages, channel/actor/tick/conn sources, Retry/Resume/Supervise strategies are outside the claim",
